@@ -36,12 +36,12 @@ Proof.
   - cbn [Capacity.power_loop].
     destruct last as [l0|].
     + destruct (_ <? tol)%float eqn:E1;
-        destruct (Nat.ltb maxit (length (_ :: queue))) eqn:E2; cbn [orb].
+        destruct (Nat.ltb maxit (length (queue ++ [_]))) eqn:E2; cbn [orb].
       * eexists; eexists; split; [reflexivity | cbn [length app]; lia].
       * eexists; eexists; split; [reflexivity | cbn [length app]; lia].
       * eexists; eexists; split; [reflexivity | cbn [length app]; lia].
-      * apply Nat.ltb_ge in E2. cbn [length] in E2.
-        apply IH; cbn [length]; lia.
+      * apply Nat.ltb_ge in E2. rewrite app_length in E2. cbn [length] in E2.
+        apply IH; rewrite ?app_length; cbn [length]; lia.
     + apply IH; lia.
 Qed.
 
